@@ -31,10 +31,43 @@ def run_check(prop, repo, tier, seed='0'):
 
 
 def baseline(repo):
-    p = subprocess.run('cd %s && /venv/bin/python -m pytest -q -p no:cacheprovider --timeout=900 '
-                       '--continue-on-collection-errors -x -q 2>&1 | tail -3' % repo,
-                       shell=True, capture_output=True, text=True)
-    return p.stdout.strip().splitlines()[-1] if p.stdout.strip() else '?'
+    """The repository's pinned baseline on the mutant: 'suite 104/104' means every stable test still passes."""
+    p = subprocess.run([sys.executable, os.path.join(HERE, 'baseline.py'), repo], capture_output=True, text=True)
+    first = (p.stdout.strip().splitlines() or ['?'])[0]
+    return 'suite ' + first.split(':')[-1].split('stable')[0].strip()
+
+
+def run_mutant(m, args):
+    out = []
+    props = [p for p in (args.props.split(',') if args.props else m['props']) if p]
+    scratch = '/var/tmp/ndt-mut-%d-%s' % (os.getpid(), m['id'])
+    shutil.rmtree(scratch, ignore_errors=True)
+    subprocess.run(['rsync', '-a', '--exclude', '.git', '--exclude', '__pycache__', '/repo/', scratch + '/'], check=True)
+    try:
+        edits = m.get('edits') or [(m['file'], m['old'], m['new'])]
+        for fname, old_, new_ in edits:
+            path = os.path.join(scratch, fname)
+            src = open(path).read()
+            if src.count(old_) != 1:
+                return ['%-40s MUTANT DOES NOT APPLY (%d matches in %s)' % (m['id'], src.count(old_), fname)], []
+            open(path, 'w').write(src.replace(old_, new_))
+        base = baseline(scratch) if args.baseline else ''
+        rows = []
+        for prop in props:
+            rc, dt, lines = run_check(prop, scratch, args.tier)
+            verdict = {0: 'MISSED(held)', 1: 'CAUGHT', 2: 'inconclusive'}.get(rc, 'rc=%d' % rc)
+            mech = ''
+            if lines:
+                mech = ' | '.join(ln.split('mechanism=')[-1] if 'mechanism=' in ln else ln[:150] for ln in lines[:3])
+            out.append('%-40s %-4s %-14s %5.1fs %s %s' % (m['id'], prop, verdict, dt, mech, base))
+            rows.append((m['id'], prop, verdict))
+        for prop in [p for p in args.others.split(',') if p]:
+            rc, dt, lines = run_check(prop, scratch, args.tier)
+            out.append('%-40s %-4s %-14s (unrelated, must be held)' % (
+                m['id'], prop, {0: 'held', 1: 'FALSE-ALARM?', 2: 'inconclusive'}.get(rc)))
+        return out, rows
+    finally:
+        shutil.rmtree(scratch, ignore_errors=True)
 
 
 def main():
@@ -44,47 +77,18 @@ def main():
     ap.add_argument('--baseline', action='store_true', help='also run the repo test-suite on the mutant')
     ap.add_argument('--props', default='')
     ap.add_argument('--others', default='', help='comma list of unrelated checks that must stay silent')
+    ap.add_argument('-j', type=int, default=1)
     args = ap.parse_args()
     from mutants import MUTANTS
+    import concurrent.futures as cf
+    sel = [m for m in MUTANTS if not args.k or args.k in m['id']]
     rows = []
-    for m in MUTANTS:
-        if args.k and args.k not in m['id']:
-            continue
-        props = [p for p in (args.props.split(',') if args.props else m['props']) if p]
-        scratch = '/var/tmp/ndt-mut-%d' % os.getpid()
-        shutil.rmtree(scratch, ignore_errors=True)
-        subprocess.run(['rsync', '-a', '--exclude', '.git', '--exclude', '__pycache__',
-                        '/repo/', scratch + '/'], check=True)
-        try:
-            edits = m.get('edits') or [(m['file'], m['old'], m['new'])]
-            applies = True
-            for fname, old_, new_ in edits:
-                path = os.path.join(scratch, fname)
-                src = open(path).read()
-                if src.count(old_) != 1:
-                    print('%-40s MUTANT DOES NOT APPLY (%d matches in %s)' % (m['id'], src.count(old_), fname))
-                    applies = False
-                    break
-                open(path, 'w').write(src.replace(old_, new_))
-            if not applies:
-                continue
-            base = baseline(scratch) if args.baseline else ''
-            for prop in props:
-                rc, dt, lines = run_check(prop, scratch, args.tier)
-                verdict = {0: 'MISSED(held)', 1: 'CAUGHT', 2: 'inconclusive'}.get(rc, 'rc=%d' % rc)
-                mech = ''
-                if lines:
-                    mech = ' | '.join(ln.split('mechanism=')[-1] if 'mechanism=' in ln else ln[:150]
-                                      for ln in lines[:3])
-                print('%-40s %-4s %-14s %5.1fs %s %s' % (m['id'], prop, verdict, dt, mech, base))
-                sys.stdout.flush()
-                rows.append((m['id'], prop, verdict))
-            for prop in [p for p in args.others.split(',') if p]:
-                rc, dt, lines = run_check(prop, scratch, args.tier)
-                print('%-40s %-4s %-14s (unrelated, must be held)' % (
-                    m['id'], prop, {0: 'held', 1: 'FALSE-ALARM?', 2: 'inconclusive'}.get(rc)))
-        finally:
-            shutil.rmtree(scratch, ignore_errors=True)
+    with cf.ThreadPoolExecutor(max_workers=args.j) as ex:
+        for out, r in ex.map(lambda m: run_mutant(m, args), sel):
+            for ln in out:
+                print(ln)
+            sys.stdout.flush()
+            rows.extend(r)
     missed = [r for r in rows if r[2] != 'CAUGHT']
     print('--- %d runs, %d not caught' % (len(rows), len(missed)))
 
